@@ -964,7 +964,8 @@ def check_c14(ctx):
     seen = set()
     for r in repo_reports:
         key = "\n".join(l.strip() for l in r.splitlines() if ".go:" in l)[:600]
-        sig = tuple(sorted(set(l.split()[-1].split(" +")[0] for l in r.splitlines() if ".go:" in l and ("xsync" in l or "cache/" in l))))[:4]
+        sig = tuple(sorted(set("/".join(tok.split("/")[-2:]) for l in r.splitlines() if ".go:" in l and ("xsync" in l or "/xsync_map" in l or "/cache" in l)
+                               for tok in l.split() if ".go:" in tok and "zzverif" not in tok)))[:4]
         if sig in seen:
             continue
         seen.add(sig)
